@@ -63,7 +63,7 @@ type Clause struct {
 	Name  string
 	Line  int
 	// Gen builds an inferred (template) invariant directly over SSA values.
-	Gen func(get func(ssa.Value) (Term, bool), st *State) (Term, bool)
+	Gen func(f *Frame, get func(ssa.Value) (Term, bool), st *State) (Term, bool)
 }
 
 type LoopSpec struct {
